@@ -18,12 +18,22 @@ impl InstructionGenerator {
         self.label(labels::end_select(), pos);
         // need to pop value from stack because it was pushed by `generate_eval_select_case_expr`
         self.push(Instruction::PopValueStackIntoA, pos);
+        self.label(labels::after_select(), pos);
     }
 
     /// Evaluate SELECT CASE x into A
     fn generate_eval_select_case_expr(&mut self, expr: ExpressionPos, pos: Position) {
         self.generate_expression_instructions(expr);
+        // If the evaluation of the expression fails and the error handler resumes at the next statement,
+        // skip the entire SELECT CASE. Its blocks cannot run without the expression on the value stack.
+        self.jump(labels::begin_select(), pos);
+        self.mark_statement_address();
+        self.jump(labels::after_select(), pos);
+        self.label(labels::begin_select(), pos);
         self.push(Instruction::PushAToValueStack, pos);
+        // From here on the expression is part of the state of the statement: an error in a CASE
+        // expression keeps it on the value stack.
+        self.mark_statement_address();
     }
 
     fn generate_case_blocks(&mut self, case_blocks: Vec<CaseBlock>, has_else: bool, pos: Position) {
@@ -204,6 +214,14 @@ mod labels {
 
     pub fn end_select() -> &'static str {
         "end-select"
+    }
+
+    pub fn begin_select() -> &'static str {
+        "begin-select"
+    }
+
+    pub fn after_select() -> &'static str {
+        "after-select"
     }
 
     pub fn next_case_label(
